@@ -105,6 +105,7 @@ structure Prod where
   kind : String
   args : List (String × Bool)     -- (prov attribute local name, optional?)
   hasIdAttrs : Bool
+  deriving DecidableEq
 
 def prods : List (String × Prod) := [
   ("wasGeneratedBy", ⟨"Generation", [("entity", false), ("activity", true), ("time", true)], true⟩),
@@ -199,22 +200,34 @@ def pTail (sc : Scope) (hints : List (String × FloatAtom)) (fuel : Nat) (allowA
     | _ => none
   | _ => none
 
+/-- a comma before every positional argument but the first -/
+def skipComma (first : Bool) (ts : List Tok) : Option (List Tok) :=
+  if first then some ts else (match ts with | .comma :: r => some r | _ => none)
+
+/-- one positional argument given as the word `w`: the marker, a time, or a name -/
+def argWord (sc : Scope) (a : String) (opt : Bool) (w : String)
+    (k : Option (List (String × AVal) × List Tok)) : Option (List (String × AVal) × List Tok) :=
+  if w == "-" then (if opt then k else none)
+  else if timeArgs.contains a then k.map (fun r => ((provNs ++ a, AVal.dt w) :: r.1, r.2))
+  else
+    match sc.resolve w with
+    | some u => k.map (fun r => ((provNs ++ a, AVal.qn u) :: r.1, r.2))
+    | none => none
+
 /-- positional arguments of a relation -/
 def pArgs (sc : Scope) : List (String × Bool) → Bool → List Tok → Option (List (String × AVal) × List Tok)
   | [], _, ts => some ([], ts)
   | (a, opt) :: more, first, ts =>
-    let ts' := if first then some ts else (match ts with | .comma :: r => some r | _ => none)
-    match ts' with
-    | none => none
-    | some (.word w :: rest) =>
-      if w == "-" then (if opt then pArgs sc more false rest else none)
-      else if timeArgs.contains a then
-        (pArgs sc more false rest).map (fun r => ((provNs ++ a, AVal.dt w) :: r.1, r.2))
-      else
-        match sc.resolve w with
-        | some u => (pArgs sc more false rest).map (fun r => ((provNs ++ a, AVal.qn u) :: r.1, r.2))
-        | none => none
+    match skipComma first ts with
+    | some (.word w :: rest) => argWord sc a opt w (pArgs sc more false rest)
     | _ => none
+
+/-- optional identifier: ( identifierOrMarker ";" )? — `none` in the first component: not allowed / unreadable -/
+def pOptId (sc : Scope) (hasId : Bool) : List Tok → Option (Option String) × List Tok
+  | .word i :: .semi :: r =>
+    if !hasId then (none, r)
+    else if i == "-" then (some none, r) else ((sc.resolve i).map some, r)
+  | r => (some none, r)
 
 /-- one expression -/
 def pExpr (sc : Scope) (hints : List (String × FloatAtom)) (fuel : Nat) : P ARec
@@ -247,16 +260,9 @@ def pExpr (sc : Scope) (hints : List (String × FloatAtom)) (fuel : Nat) : P ARe
       match prods.find? (fun p => p.1 == name) with
       | none => none
       | some (_, pr) =>
-        -- optional identifier: ( identifierOrMarker ";" )?
-        let (id?, afterId) : Option (Option String) × List Tok :=
-          match rest with
-          | .word i :: .semi :: r =>
-            if !pr.hasIdAttrs then (none, r)
-            else if i == "-" then (some none, r) else ((sc.resolve i).map some, r)
-          | r => (some none, r)
-        match id? with
-        | none => none
-        | some id =>
+        match pOptId sc pr.hasIdAttrs rest with
+        | (none, _) => none
+        | (some id, afterId) =>
           match pArgs sc pr.args true afterId with
           | none => none
           | some (args, r) => (pTail sc hints fuel pr.hasIdAttrs r).map (fun t => (⟨pr.kind, id, args ++ t.1⟩, t.2))
